@@ -324,7 +324,7 @@ func (tb *termBuilder) term(v ssa.Value, at ssa.Instruction) *Term {
 	case *ssa.Lookup:
 		return &Term{Op: "index", Args: []*Term{tb.term(x.X, x), tb.term(x.Index, x)}, V: v, In: x}
 	case *ssa.Slice:
-		if al, ok := x.X.(*ssa.Alloc); ok && al.Comment == "varargs" {
+		if al, ok := x.X.(*ssa.Alloc); ok && (al.Comment == "varargs" || al.Comment == "slicelit") {
 			// variadic argument list: render the elements
 			elems := map[int64]*Term{}
 			var max int64 = -1
